@@ -24,6 +24,17 @@ add("C09", "exploration",
     "Trusts the EnumRNG outcome enumeration (self-checked: probabilities sum to 1) and the brute-force permutation filter (cross-checked against a closed form).",
     "DESIGN.md section 5 C09")
 
+add("C01", "exploration",
+    "property-based testing (Hypothesis-generated data sets/configurations) with exact enumeration of all random outcomes: transition matrix K over all clone trees, oracle pi K = pi to 1e-9",
+    "For each generated case the sampler's exact transition matrix over ALL clone trees (n<=4) is computed by enumerating every random outcome, so bias of 1e-9 is visible (tests: 3e-2). Bounded by n<=4 and the number of generated cases; not an absence proof.",
+    "Trusts EnumRNG (rows must sum to 1, self-checked) and numpy linear algebra; pi is the code's own log_p_one (C03 checks it).",
+    "DESIGN.md section 5 C01")
+add("C04", "exploration",
+    "property-based testing with exact enumeration of all random outcomes per move (transition matrices over all clone trees; pi K = pi; sweep = product of component kernels)",
+    "Each auxiliary move (data-point with/without outliers, prune-regraft, subtree inner kernel, subtree full move, run-loop sweep composition) is checked separately by exact enumeration on generated data sets with n<=4. One known finding (F7) is listed in known_findings.json.",
+    "Trusts EnumRNG and numpy; pi from the code's log_p_one; subtree-full for n>=3 is a recorded known finding, so new defects confined to that component and size are only caught through subtree-inner and n<=2.",
+    "DESIGN.md section 5 C04")
+
 NOT_APPLICABLE = []
 
 def main():
